@@ -484,6 +484,31 @@ def required_attributes(ctx):
     for r in raises:
         guards = dom.guards_of(g, r)
         extra, have_missing, have_loop = [], False, False
+        # the missing attributes collected first: `missing = [a.name for a in <attributes> if a.is_required and a.name not in self.attributes]`, then
+        # `if missing: raise` - the comprehension's filters are exactly "required" and "not set", nothing else
+        collected = None
+        for t, lab in guards:
+            if t.kind == 'test' and lab == 'T' and isinstance(t.ast, ast.Name):
+                ds_ = dom.reaching_defs(g, t.ast.id, t)
+                v_ = ds_[0].ast.value if len(ds_) == 1 and isinstance(ds_[0].ast, ast.Assign) else None
+                if isinstance(v_, (ast.ListComp, ast.GeneratorExp)) and len(v_.generators) == 1 and unparse(v_.generators[0].iter) == 'self.TYPE.get_xsd_attributes()':
+                    tv_ = unparse(v_.generators[0].target)
+                    conds = []
+                    for c_ in v_.generators[0].ifs:
+                        conds += c_.values if isinstance(c_, ast.BoolOp) and isinstance(c_.op, ast.And) else [c_]
+                    texts = sorted(unparse(c_) for c_ in conds)
+                    want = sorted([f"{tv_}.is_required"] + [f"{tv_}.name not in {o}" for o in ATTR_OBJ][:1])
+                    alt = sorted([f"{tv_}.is_required", f"{tv_}.name not in {ATTR_OBJ[1]}"])
+                    if texts in (want, alt) and unparse(v_.elt) in (f"{tv_}.name", tv_):
+                        collected = t
+        if collected is not None:
+            others = [(t, lab) for t, lab in guards if t is not collected and not (t.kind == 'test' and unparse(t.ast) == 'self.TYPE.get_xsd_tree().is_complex_type' and lab == 'T')]
+            res.check(True, 'R-DOM.required-attributes', f.fq, "all required attributes of the element's type are examined", key='R-DOM.required-attributes|loop')
+            res.check(True, 'R-DOM.required-attributes', f.fq, "the rejection is taken when the attribute's name is not among the current attributes",
+                      key='R-DOM.required-attributes|missing-test')
+            res.check(not others, 'R-DOM.required-attributes', f.fq, "no further condition narrows the check",
+                      fail_detail=str([f"{unparse(t.ast) if t.kind == 'test' else t.kind} [{lab}]" for t, lab in others]), key='R-DOM.required-attributes|extra-guard', line=r.line)
+            continue
         # loops over `[a.name for a in <attributes> if a.is_required]`: their variable is a required attribute's name
         names_loop_vars = set()
         for t, lab in guards:
